@@ -958,13 +958,15 @@ def _registration(run, f: Func, tag: str):
     d_exc = _derived(f, exc_param)
     d_h = _derived(f, h_param)
     stores = []
+    reg_al = _aliases(f, lambda e: is_self_attr(e, '_error_handlers'))       # handlers = self._error_handlers: the same dict
+    is_reg = lambda e: is_self_attr(e, '_error_handlers') or (isinstance(e, ast.Name) and e.id in reg_al)  # noqa: E731
     for n in walk_self(f.node):
         if isinstance(n, ast.Assign):
             for t in n.targets:
-                if isinstance(t, ast.Subscript) and is_self_attr(t.value, '_error_handlers'):
+                if isinstance(t, ast.Subscript) and is_reg(t.value):
                     stores.append((n, t))
     soft = [c for c in walk_self(f.node) if isinstance(c, ast.Call) and isinstance(c.func, ast.Attribute)
-            and is_self_attr(c.func.value, '_error_handlers')]
+            and is_reg(c.func.value)]
     for c in soft:
         if c.func.attr == 'setdefault':
             run.fail('%s: registration keeps an earlier handler (the latest registration must win)' % tag, f, c,
@@ -973,7 +975,7 @@ def _registration(run, f: Func, tag: str):
             raise UnknownIdiom('%s: registry written through %s' % (f.qual, short(c)))
     if not stores and not any(c.func.attr == 'setdefault' for c in soft):
         raise AnchorError('%s: no store into self._error_handlers' % f.qual)
-    mentions_registry = lambda e: is_self_attr(e, '_error_handlers')  # noqa: E731
+    mentions_registry = is_reg
     for st, tgt in stores:
         nid = single(cfg.nodes_for(st), 'registry store node', f.qual)
         guards = [t for (t, _tr) in ix.facts(nid) if mentions(t, mentions_registry)]
@@ -1068,13 +1070,14 @@ def r2_selection(run):
         f = p.func(app + '.add_error_handler')
         _registration(run, f, tag)
     # default handlers
-    init = p.func(WSGI_APP + '.__init__')
+    init = inline_view(p, p.func(WSGI_APP + '.__init__'), _INIT_KEEP)
     cfg = cfg_of(init, p)
     run.use_cfg(cfg)
     ix = Index(cfg)
     regs: Dict[str, Tuple[ast.Call, str]] = {}
+    is_add = method_of(init, {'self'}, 'add_error_handler')
     for c in walk_self(init.node):
-        if isinstance(c, ast.Call) and dotted(c.func) == 'self.add_error_handler' and len(c.args) >= 2:
+        if isinstance(c, ast.Call) and is_add(c.func) and len(c.args) >= 2:
             cq = p.resolve_expr(init.module, c.args[0], init)
             hm = c.args[1]
             if cq and isinstance(hm, ast.Attribute) and is_name(hm.value, 'self'):
@@ -1099,7 +1102,7 @@ def r2_selection(run):
     ainit = p.func(ASGI_APP + '.__init__')
     acfg = cfg_of(ainit, p)
     ax = Index(acfg)
-    sup = [c for c in walk_self(ainit.node) if isinstance(c, ast.Call) and p.callee(ainit, c) is init]
+    sup = [c for c in walk_self(ainit.node) if isinstance(c, ast.Call) and getattr(p.callee(ainit, c), 'qual', None) == init.qual]
     path = _all_paths_through(acfg, _call_nodes(ax, sup))
     run.check(bool(sup) and path is None, 'ASGI App.__init__ runs the base constructor (default handlers) on every path', ainit,
               sup[0] if sup else 'super().__init__')
@@ -1115,7 +1118,7 @@ class _Handle:
         self.p = p
         self.tag = tag
         self.app = app
-        f = self.f = effective_method(p, app, '_handle_exception')
+        f = self.f = inline_view(p, effective_method(p, app, '_handle_exception'))
         cfg = self.cfg = cfg_of(f, p)
         run.use_cfg(cfg)
         self.ix = Index(cfg)
@@ -1123,12 +1126,15 @@ class _Handle:
             (1, 'req'), (2, 'resp'), (3, 'exception'), (4, 'params')))
         # H = result of self._find_error_handler(ex)
         self.h = None
+        self.resp_names = same_names(f, self.resp)
+        is_find = method_of(f, {'self'}, '_find_error_handler')
+        ex_names = same_names(f, self.ex)
         for n in walk_self(f.node):
             if isinstance(n, (ast.Assign, ast.AnnAssign)) and n.value is not None:
                 v = strip_await(n.value)
                 tg = n.targets[0] if isinstance(n, ast.Assign) and len(n.targets) == 1 else getattr(n, 'target', None)
-                if isinstance(v, ast.Call) and dotted(v.func) == 'self._find_error_handler' and isinstance(tg, ast.Name):
-                    if not (len(v.args) == 1 and is_name(v.args[0], self.ex)):
+                if isinstance(v, ast.Call) and is_find(v.func) and isinstance(tg, ast.Name):
+                    if not (len(v.args) == 1 and isinstance(v.args[0], ast.Name) and v.args[0].id in ex_names):
                         raise UnknownIdiom('%s: %s is not a search for the raised exception' % (f.qual, short(v)))
                     self.h = tg.id
                     self.find_stmt = n
@@ -1227,10 +1233,16 @@ def _renders(hd: _Handle, arm: ast.ExceptHandler, kind: str) -> Tuple[bool, Opti
 def _handle_rules(run, hd: _Handle):
     cfg, f, tag, ix = hd.cfg, hd.f, hd.tag, hd.ix
     # (1) reset dominates the handler call
-    if not any(assigned_none_attrs(n, hd.resp) & {'text', 'data', 'media'} for n in cfg.live_nodes()):
+    def none_attrs(n):
+        out = set()
+        for base in hd.resp_names:
+            out |= assigned_none_attrs(n, base)
+        return out
+
+    if not any(none_attrs(n) & {'text', 'data', 'media'} for n in cfg.live_nodes()):
         raise AnchorError('%s: no `%s.text/data/media = None` reset found' % (f.qual, hd.resp))
     for attr in ('text', 'data', 'media'):
-        resets = [n.id for n in cfg.live_nodes() if attr in assigned_none_attrs(n, hd.resp)]
+        resets = [n.id for n in cfg.live_nodes() if attr in none_attrs(n)]
         for cn in hd.call_nodes:
             path = flow.find_path(cfg, [cfg.entry], [cn], avoid_nodes=resets, edge_filter=hd.http)
             run.check(path is None, '%s: resp.%s is reset to None before the selected handler runs' % (tag, attr), f,
@@ -1327,26 +1339,29 @@ def r3_handle(run):
 
 def _compose_rule(run, f: Func, kind: str, tags: str):
     p = run.project
+    f = inline_view(p, f)       # a same-object / module-level helper that is handed resp and the instance is read as its body
     cfg = cfg_of(f, p)
     run.use_cfg(cfg)
     ix = Index(cfg)
     reqn, respn, x = (param_at(f, i, w) for i, w in ((1, 'req'), (2, 'resp'), (3, 'instance')))
+    REQ, RESP, X = same_names(f, reqn), same_names(f, respn), same_names(f, x)
 
     def source(attr):
         """`x.<attr>` or a local that is only ever bound to it"""
-        al = _aliases(f, lambda e: attr_of(e, x, (attr,)))
-        return lambda e: attr_of(e, x, (attr,)) or (isinstance(e, ast.Name) and e.id in al)
+        al = _aliases(f, lambda e: attr_in(e, X, (attr,)))
+        return lambda e: attr_in(e, X, (attr,)) or (isinstance(e, ast.Name) and e.id in al)
 
     is_status, is_hdr, is_text = source('status'), source('headers'), source('text')
+    in_ = lambda e, names: isinstance(e, ast.Name) and e.id in names  # noqa: E731
     # status
     st = [n.id for n in cfg.live_nodes() if n.kind == 'stmt' and isinstance(n.ast, ast.Assign)
-          and any(attr_of(t, respn, ('status',)) for t in n.ast.targets) and is_status(n.ast.value)]
+          and any(attr_in(t, RESP, ('status',)) for t in n.ast.targets) and is_status(n.ast.value)]
     path = _all_paths_through(cfg, st)
     run.check(bool(st) and path is None, '%s: %s copies the status of the raised instance' % (tags, f.name), f,
               '%s.status = %s.status' % (respn, x), where=f.loc(), runtime_witness='the response keeps the previous status (e.g. 200)')
     # headers
-    hcalls = [c for c in walk_self(f.node) if isinstance(c, ast.Call) and isinstance(c.func, ast.Attribute)
-              and c.func.attr == 'set_headers' and is_name(c.func.value, respn) and len(c.args) == 1 and is_hdr(c.args[0])]
+    is_set_headers = method_of(f, RESP, 'set_headers')
+    hcalls = [c for c in walk_self(f.node) if isinstance(c, ast.Call) and is_set_headers(c.func) and len(c.args) == 1 and is_hdr(c.args[0])]
     hnodes = _call_nodes(ix, hcalls)
     has_headers = combine(assume_none(is_hdr, False), lambda e: True if is_hdr(e) else None)
     path = _all_paths_through(cfg, hnodes, pruned(cfg, has_headers, flow.no_exc))
@@ -1355,13 +1370,14 @@ def _compose_rule(run, f: Func, kind: str, tags: str):
               runtime_witness='headers given to the HTTPError/HTTPStatus (Location, Retry-After, Allow, ...) are lost')
     # body source
     if kind == 'ERROR':
-        bcalls = [c for c in walk_self(f.node) if isinstance(c, ast.Call) and dotted(c.func) == 'self._serialize_error'
-                  and len(c.args) >= 3 and is_name(c.args[0], reqn) and is_name(c.args[1], respn) and is_name(c.args[2], x)]
+        is_ser = method_of(f, {'self'}, '_serialize_error')
+        bcalls = [c for c in walk_self(f.node) if isinstance(c, ast.Call) and is_ser(c.func)
+                  and len(c.args) >= 3 and in_(c.args[0], REQ) and in_(c.args[1], RESP) and in_(c.args[2], X)]
         bnodes = _call_nodes(ix, bcalls)
         what = 'self._serialize_error(%s, %s, %s)' % (reqn, respn, x)
     else:
         bnodes = [n.id for n in cfg.live_nodes() if n.kind == 'stmt' and isinstance(n.ast, ast.Assign)
-                  and any(attr_of(t, respn, ('text',)) for t in n.ast.targets) and is_text(n.ast.value)]
+                  and any(attr_in(t, RESP, ('text',)) for t in n.ast.targets) and is_text(n.ast.value)]
         what = '%s.text = %s.text' % (respn, x)
     path = _all_paths_through(cfg, bnodes)
     run.check(bool(bnodes) and path is None, '%s: %s sets the body source from the raised instance on every path' % (tags, f.name), f,
@@ -1378,7 +1394,9 @@ def _guard_set(ix: Index, nid: int) -> frozenset:
     """Conditions under which node nid runs, normalised: a branch fact that is *equivalent* to `self.A is (not) None`
     (whatever its spelling) is named so; anything else keeps its text."""
     out = set()
-    for (test, truth) in ix.facts(nid):
+    dr = Deref(ix.cfg, ix)
+    for (test, truth, tn) in ix.facts3(nid):
+        test = dr.norm(test, tn)        # `code = self.code` ... `if code is not None`: a test of self.code
         attrs = sorted({x.attr for x in ast.walk(test) if isinstance(x, ast.Attribute) and is_name(x.value, 'self')})
         named = False
         for a in attrs:
@@ -1536,10 +1554,15 @@ def _dict_fields(run, f: Func):
     r = single(rets, 'return of the error document', f.qual)
     obj = r.value.id
     fields = {}
+    objs = same_names(f, obj)
+    # (the returned local may itself be another name of the document: doc = obj ... return doc)
+    for nm, v in once_bound(f).items():
+        if nm in objs and isinstance(v, ast.Name):
+            objs |= same_names(f, v.id)
     for n in walk_self(f.node):
         if isinstance(n, ast.Assign):
             for t in n.targets:
-                if isinstance(t, ast.Subscript) and is_name(t.value, obj):
+                if isinstance(t, ast.Subscript) and isinstance(t.value, ast.Name) and t.value.id in objs:
                     k = t.slice
                     if isinstance(k, ast.Name):
                         # `for name in ('description', 'code', ...): value = getattr(self, name); if <guard on value>: obj[name] = value`
@@ -1570,9 +1593,13 @@ def _xml_fields(run, f: Func):
     if root is None:
         raise AnchorError('%s: root XML element not found' % f.qual)
 
+    sub_al = _aliases(f, lambda e: isinstance(e, ast.Attribute) and e.attr == 'SubElement')        # sub = et.SubElement
+
     def subs(parent):
-        return [c for c in walk_self(f.node) if isinstance(c, ast.Call) and isinstance(c.func, ast.Attribute)
-                and c.func.attr == 'SubElement' and len(c.args) >= 2 and is_name(c.args[0], parent)]
+        parents = same_names(f, parent)
+        return [c for c in walk_self(f.node) if isinstance(c, ast.Call) and len(c.args) >= 2
+                and ((isinstance(c.func, ast.Attribute) and c.func.attr == 'SubElement') or (isinstance(c.func, ast.Name) and c.func.id in sub_al))
+                and isinstance(c.args[0], ast.Name) and c.args[0].id in parents]
 
     fields = {}
     for c in subs(root):
@@ -1655,7 +1682,7 @@ def _status_tables(run):
             call, pos, explicit = delegation(init)
             pos = [a for a in pos if not isinstance(a, ast.Starred)]
             if pos and not (isinstance(pos[0], ast.Name) and pos[0].id in init.params()):
-                val = p.fold(init.module, pos[0], None, init)
+                val = fold_in(p, init, pos[0])
                 if val is UNKNOWN:
                     raise UnknownIdiom('%s: status argument %s is not a constant' % (init.qual, short(pos[0])))
                 return (init.cls.qual, val, call)
@@ -1705,9 +1732,22 @@ def _ctor_wiring(run, qual: str, attrs):
     for a in attrs:
         if a not in f.params():
             raise AnchorError('%s has no parameter %s' % (qual, a))
-        nodes = [n.id for n in cfg.live_nodes() if n.kind == 'stmt' and isinstance(n.ast, (ast.Assign, ast.AnnAssign))
-                 and any(is_self_attr(t, a) for t in (n.ast.targets if isinstance(n.ast, ast.Assign) else [n.ast.target]))
-                 and n.ast.value is not None and any(is_name(x, a) for x in ast.walk(n.ast.value))]
+        names = same_names(f, a)
+
+        def stores_arg(st) -> bool:
+            """`self.<a> = <expression of the argument>`, also as one position of a tuple assignment"""
+            if not isinstance(st, (ast.Assign, ast.AnnAssign)) or st.value is None:
+                return False
+            for t in (st.targets if isinstance(st, ast.Assign) else [st.target]):
+                if is_self_attr(t, a) and any(isinstance(x, ast.Name) and x.id in names for x in ast.walk(st.value)):
+                    return True
+                if isinstance(t, (ast.Tuple, ast.List)) and isinstance(st.value, (ast.Tuple, ast.List)) and len(t.elts) == len(st.value.elts):
+                    for te, ve in zip(t.elts, st.value.elts):
+                        if is_self_attr(te, a) and any(isinstance(x, ast.Name) and x.id in names for x in ast.walk(ve)):
+                            return True
+            return False
+
+        nodes = [n.id for n in cfg.live_nodes() if n.kind == 'stmt' and stores_arg(n.ast)]
         path = _all_paths_through(cfg, nodes)
         run.check(bool(nodes) and path is None, '%s stores its %s argument in self.%s' % (f.cls.name, a, a), f, 'self.%s = %s' % (a, a),
                   where=f.loc())
@@ -1958,6 +1998,8 @@ def fold_in(p, f: Func, e, depth=0):
     used = {x.id for x in ast.walk(e) if isinstance(x, ast.Name) and isinstance(x.ctx, ast.Load) and x.id in ob}
     if not used:
         return UNKNOWN
+    if isinstance(e, ast.Name):
+        return fold_in(p, f, ob[e.id], depth + 1)
     import copy as _copy
 
     class Sub(ast.NodeTransformer):
@@ -2027,8 +2069,10 @@ def bind_args(g: Func, call: ast.Call, bound_self: Optional[bool] = None) -> Opt
 def inert_default(p, g: Func, param: str) -> Optional[ast.AST]:
     """The default expression of `param` when the parameter is an additive, inert extension (reading ability 4): it
     has a default, is never rebound in g, and no call anywhere in the analysed package of a function / method called
-    g.name passes it (by keyword, by position, or through */**).  For the callers the package has, the parameter IS
-    its default."""
+    g.name passes it (by keyword, by position, or through */**).  When the function object is stored in an attribute
+    (`self._serialize_error = helpers.default_serialize_error`) the calls of that attribute are its calls too; any other
+    use of the function as a value means its callers are not all visible.  For the callers the package has, the
+    parameter IS its default."""
     a = g.node.args
     pos = [x.arg for x in a.posonlyargs + a.args]
     default = None
@@ -2047,30 +2091,378 @@ def inert_default(p, g: Func, param: str) -> Optional[ast.AST]:
             return None
     if any(isinstance(x, ast.Name) and x.id == param and isinstance(x.ctx, (ast.Store, ast.Del)) for x in ast.walk(g.node)):
         return None
+    cache = p.__dict__.setdefault('_c04_refs', {})
+    if 'parents' not in cache:
+        par = {}
+        for m in p.modules.values():
+            for n in ast.walk(m.tree):
+                for c in ast.iter_child_nodes(n):
+                    par[id(c)] = n
+        cache['parents'] = par
+    par = cache['parents']
     shift = 1 if (g.cls is not None and 'staticmethod' not in g.decorators) else 0
-    for m in p.modules.values():
-        for c in ast.walk(m.tree):
-            if not isinstance(c, ast.Call):
-                continue
-            fn = c.func
-            nm = fn.attr if isinstance(fn, ast.Attribute) else (fn.id if isinstance(fn, ast.Name) else None)
-            if nm != g.name:
-                continue
-            if any(isinstance(x, ast.Starred) for x in c.args) or any(k.arg is None for k in c.keywords):
-                return None
-            if any(k.arg == param for k in c.keywords):
-                return None
-            if idx is not None:
-                # bound call (attribute): self is not among the arguments; plain name call of a method object: it is
-                n_given = len(c.args) + (shift if isinstance(fn, ast.Attribute) else 0)
-                if n_given > idx:
-                    return None
-    # handed around as an object (functools.partial, a table of callables): the callers are not all visible
+    names = {g.name}
+    calls = []
+    # pass 1: the function as a value
     for m in p.modules.values():
         for x in ast.walk(m.tree):
             if isinstance(x, ast.Constant) and x.value == g.name:
+                up = par.get(id(x))
+                while up is not None and not isinstance(up, (ast.Assign, ast.AnnAssign, ast.AugAssign, ast.FunctionDef, ast.AsyncFunctionDef, ast.ClassDef)):
+                    up = par.get(id(up))
+                tg = up.targets if isinstance(up, ast.Assign) else [getattr(up, 'target', None)] if up is not None else []
+                if any(isinstance(t, ast.Name) and t.id == '__all__' for t in tg):
+                    continue        # an export list
+                return None         # getattr(obj, '<name>') and the like
+            nm = x.attr if isinstance(x, ast.Attribute) else (x.id if isinstance(x, ast.Name) else None)
+            if nm != g.name or not isinstance(getattr(x, 'ctx', None), ast.Load):
+                continue
+            up = par.get(id(x))
+            if isinstance(up, ast.Call) and up.func is x:
+                continue
+            if isinstance(up, ast.Assign) and up.value is x and len(up.targets) == 1 and isinstance(up.targets[0], ast.Attribute):
+                names.add(up.targets[0].attr)       # stored in an attribute: called through it
+                continue
+            if g.cls is None or isinstance(x, ast.Name):
+                return None         # handed around as an object
+            # `<obj>.<name>` read without a call: a bound method handed around
+            return None
+    for m in p.modules.values():
+        for c in ast.walk(m.tree):
+            if isinstance(c, ast.Call):
+                fn = c.func
+                nm = fn.attr if isinstance(fn, ast.Attribute) else (fn.id if isinstance(fn, ast.Name) else None)
+                if nm in names:
+                    calls.append(c)
+    for c in calls:
+        fn = c.func
+        if any(isinstance(x, ast.Starred) for x in c.args) or any(k.arg is None for k in c.keywords):
+            return None
+        if any(k.arg == param for k in c.keywords):
+            return None
+        if idx is not None:
+            # bound call (attribute): self is not among the arguments; plain name call of a method object: it is
+            n_given = len(c.args) + (shift if isinstance(fn, ast.Attribute) else 0)
+            if n_given > idx:
                 return None
     return default
+# Contract names the rules of C04 / C05 anchor on: a call of one of these is never replaced by its body (the rules judge the
+# callee on its own and look for the call).
+INLINE_KEEP = frozenset({
+    '__init__', '__call__', '_handle_exception', '_find_error_handler', '_compose_error_response', '_compose_status_response',
+    'add_error_handler', '_serialize_error', '_http_status_handler', '_http_error_handler', '_python_error_handler',
+    '_get_body', 'render_body', '_wsgi_headers', '_asgi_headers', 'set_header', 'append_header', 'set_headers', 'get_header',
+    'to_dict', '_to_xml', 'to_json', 'to_xml', 'serialize', 'deserialize', 'code_to_http_status', '_schedule_callbacks',
+    '_get_responder', 'log_error', 'default_serialize_error', 'client_prefers', 'client_accepts', '_resolve', 'close', 'read',
+    '_set_media_type', '_prepare_middleware', '_create_resolver', '_ws_cleanup_on_error',
+})
+_INLINE_DEPTH = 2
+
+
+class _RenameLocals(ast.NodeTransformer):
+    def __init__(self, mapping):
+        self.mapping = mapping
+
+    def visit_Name(self, n):
+        if n.id in self.mapping:
+            return ast.copy_location(ast.Name(id=self.mapping[n.id], ctx=n.ctx), n)
+        return n
+
+    def visit_ExceptHandler(self, n):
+        self.generic_visit(n)
+        if n.name in self.mapping:
+            n.name = self.mapping[n.name]
+        return n
+
+
+def _helper_body(m: Func):
+    """the helper's statements (a fresh copy, docstring dropped) with leading guards `if c: return` turned into
+    `if not c: <rest>`; -> (statements, returned expression | None) or None when a `return` is left inside"""
+    import copy as _copy
+    stmts = [_copy.deepcopy(b) for b in m.node.body]
+    if stmts and isinstance(stmts[0], ast.Expr) and isinstance(stmts[0].value, ast.Constant) and isinstance(stmts[0].value.value, str):
+        stmts = stmts[1:]
+
+    def fold(ss):
+        for i, st in enumerate(ss):
+            if isinstance(st, ast.If) and not st.orelse and len(st.body) == 1 and isinstance(st.body[0], ast.Return) and st.body[0].value is None:
+                rest = fold(ss[i + 1:])
+                if rest and isinstance(rest[-1], ast.Return) and rest[-1].value is not None:
+                    return ss
+                if not rest:
+                    return ss[:i] + [ast.copy_location(ast.Expr(value=st.test), st)]
+                neg = ast.copy_location(ast.UnaryOp(op=ast.Not(), operand=st.test), st.test)
+                return ss[:i] + [ast.copy_location(ast.If(test=neg, body=rest, orelse=[]), st)]
+        if ss and isinstance(ss[-1], ast.Return) and ss[-1].value is None:
+            return ss[:-1]
+        return ss
+
+    stmts = fold(stmts)
+    ret = None
+    if stmts and isinstance(stmts[-1], ast.Return):
+        ret = stmts.pop().value
+    for st in stmts:
+        for x in walk_self(st):
+            if isinstance(x, ast.Return):
+                return None
+    return stmts, ret
+
+
+def _inline_block(p, owner: Func, stmts, depth: int, stack, counter, keep) -> Tuple[list, bool]:
+    import copy as _copy
+    out: list = []
+    changed = False
+    for s in stmts:
+        if not isinstance(s, (ast.FunctionDef, ast.AsyncFunctionDef, ast.ClassDef)):
+            for fld in ('body', 'orelse', 'finalbody'):
+                blk = getattr(s, fld, None)
+                if isinstance(blk, list) and blk and isinstance(blk[0], ast.stmt):
+                    nb, ch = _inline_block(p, owner, blk, depth, stack, counter, keep)
+                    if ch:
+                        setattr(s, fld, nb)
+                        changed = True
+            for h in getattr(s, 'handlers', []) or []:
+                nb, ch = _inline_block(p, owner, h.body, depth, stack, counter, keep)
+                if ch:
+                    h.body = nb
+                    changed = True
+        val = None
+        if isinstance(s, ast.Expr):
+            val = s.value
+        elif isinstance(s, ast.Assign) and len(s.targets) == 1:
+            val = s.value
+        elif isinstance(s, ast.AnnAssign) and s.value is not None:
+            val = s.value
+        elif isinstance(s, ast.Return) and s.value is not None:
+            val = s.value
+        awaited = isinstance(val, ast.Await)
+        call = val.value if awaited else val
+        m = None
+        if isinstance(call, ast.Call) and depth < _INLINE_DEPTH:
+            m = plain_helper(p, owner, call)
+        if m is not None:
+            fn = call.func
+            ok = (m.name not in keep and m.qual not in stack and m.module is owner.module and m.is_async == awaited
+                  and not any(isinstance(x, (ast.FunctionDef, ast.AsyncFunctionDef, ast.ClassDef, ast.Lambda, ast.Global, ast.Nonlocal))
+                              for x in walk_self(m.node) if x is not m.node))
+            if ok and m.cls is not None:
+                # a method: only `self.<m>(...)` from a method whose self is the same object
+                ok = (not m.decorators and isinstance(fn, ast.Attribute) and is_name(fn.value, 'self') and owner.cls is not None
+                      and bool(m.node.args.args) and m.node.args.args[0].arg == 'self')
+            elif ok:
+                ok = isinstance(fn, ast.Name)
+            bound = bind_args(m, call) if ok else None
+            hb = _helper_body(m) if bound is not None else None
+            if hb is not None:
+                body, ret = hb
+                counter[0] += 1
+                stored = {x.id for b in m.node.body for x in ast.walk(b) if isinstance(x, ast.Name) and isinstance(x.ctx, (ast.Store, ast.Del))}
+                stored |= {h.name for b in m.node.body for h in ast.walk(b) if isinstance(h, ast.ExceptHandler) and h.name}
+                names = (set(bound) | stored) - {'self'}
+                ren = {nm: '%s__%s%d' % (nm, m.name.strip('_'), counter[0]) for nm in names}
+                binds = [ast.copy_location(ast.Assign(targets=[ast.copy_location(ast.Name(id=ren[k], ctx=ast.Store()), call)],
+                                                      value=_copy.deepcopy(v), lineno=call.lineno), call)
+                         for k, v in bound.items() if k != 'self']
+                rn = _RenameLocals(ren)
+                body = [rn.visit(b) for b in body]
+                ret = rn.visit(ret) if ret is not None else None
+                body, _ch = _inline_block(p, m, body, depth + 1, stack + (m.qual,), counter, keep)
+                if isinstance(s, ast.Expr):
+                    tail = [ast.copy_location(ast.Expr(value=ret), s)] if ret is not None else []
+                else:
+                    t2 = _copy.copy(s)
+                    t2.value = ret if ret is not None else ast.copy_location(ast.Constant(value=None), call)
+                    tail = [t2]
+                out.extend(binds + body + tail)
+                changed = True
+                continue
+        out.append(s)
+    return out, changed
+
+
+# App.__init__ calls public registration methods (add_middleware, add_route, ...) that stay calls; only private helpers of the
+# constructor are read as their bodies
+_INIT_KEEP = INLINE_KEEP | frozenset({'add_middleware', 'add_route', 'add_sink', 'add_static_route', 'set_error_serializer',
+                                      '_prepare_middleware', '_update_sink_and_static_routes'})
+
+
+def inline_view(p, f: Func, keep=INLINE_KEEP) -> Func:
+    """Reading ability 2 for the rules that judge a protocol spread over the statements of ONE function: a call - standing
+    alone as a statement, or as the value of a single assignment / return, awaited for a coroutine - of a module-level
+    function of the same module or of a plain method of the same object (`self.m(...)`) whose only valued `return` is its
+    last statement is replaced by the callee's body, parameters bound to the arguments (defaults for what is not passed:
+    reading ability 4) and locals renamed apart; bounded depth, no recursion.  Calls of the contract names in INLINE_KEEP
+    stay calls.  A function that needs nothing of this is returned as it is (same Func, same AST)."""
+    import copy as _copy
+    cache = p.__dict__.setdefault('_c04_inline_views', {})
+    key = (f.qual, id(f.node), keep)
+    if key in cache:
+        return cache[key]
+    g = f
+    if any(isinstance(c, ast.Call) and plain_helper(p, f, c) is not None and plain_helper(p, f, c).name not in keep for c in walk_self(f.node)):
+        node = _copy.deepcopy(f.node)
+        body, ch = _inline_block(p, f, node.body, 0, (f.qual,), [0], keep)
+        if ch:
+            node.body = body
+            ast.fix_missing_locations(node)
+            g = Func(node, f.qual, f.module, f.cls, f.parent)
+            g.nested = f.nested
+            g.origin = f
+    cache[key] = g
+    return g
+
+
+def same_names(f: Func, base: str) -> Set[str]:
+    """`base` and the locals that are only ever bound to it (transitively): other names of the same object (a local bound to
+    a parameter, the renamed parameter of an inlined helper)."""
+    names = {base}
+    while True:
+        more = _aliases(f, lambda e: isinstance(e, ast.Name) and e.id in names) - names
+        if not more:
+            return names
+        names |= more
+
+
+def attr_in(e, bases: Set[str], attrs) -> bool:
+    return isinstance(e, ast.Attribute) and e.attr in attrs and isinstance(e.value, ast.Name) and e.value.id in bases
+
+
+def method_of(f: Func, bases: Set[str], attr: str):
+    """predicate: `<base>.<attr>` or a local that is only ever bound to it (a bound method held in a local IS the method)"""
+    al = _aliases(f, lambda e: attr_in(e, bases, (attr,)))
+    return lambda e: attr_in(e, bases, (attr,)) or (isinstance(e, ast.Name) and e.id in al)
+
+
+def stable_locals(f: Func) -> Dict[str, ast.AST]:
+    """once-bound locals whose value can be re-read wherever the local is read: it is built from constants, parameters that
+    are never rebound, module-level names and other such locals only (no call except len/str/isinstance/hasattr, no attribute
+    that is assigned in the function)."""
+    cache = f.__dict__.setdefault('_c04_stable', None)
+    if cache is not None:
+        return cache
+    ob = once_bound(f)
+    stores = {x.id for x in walk_self(f.node) if isinstance(x, ast.Name) and isinstance(x.ctx, (ast.Store, ast.Del))}
+    attr_stores = {dotted(x) for x in walk_self(f.node) if isinstance(x, ast.Attribute) and isinstance(x.ctx, (ast.Store, ast.Del)) and dotted(x)}
+    good: Dict[str, ast.AST] = {}
+
+    in_loop: Set[str] = set()
+    for lp in walk_self(f.node):
+        if isinstance(lp, (ast.For, ast.AsyncFor, ast.While)):
+            in_loop |= {x.id for x in ast.walk(lp) if isinstance(x, ast.Name) and isinstance(x.ctx, (ast.Store, ast.Del))}
+
+    def ok(e, me) -> bool:
+        for x in ast.walk(e):
+            if isinstance(x, ast.Call):
+                if not (isinstance(x.func, ast.Name) and x.func.id in ('len', 'str', 'isinstance', 'hasattr', 'bool')):
+                    return False
+            elif isinstance(x, ast.Attribute):
+                if dotted(x) in attr_stores:
+                    return False
+            elif isinstance(x, (ast.Await, ast.Yield, ast.YieldFrom, ast.NamedExpr, ast.Lambda, ast.ListComp, ast.SetComp, ast.DictComp, ast.GeneratorExp)):
+                return False
+            elif isinstance(x, ast.Name) and isinstance(x.ctx, ast.Load) and x.id in stores:
+                # another local: it must hold ONE value for the whole run of the function (bound once, outside every loop)
+                if x.id == me or x.id not in ob or x.id in in_loop:
+                    return False
+        return True
+
+    for k, v in ob.items():
+        if k not in in_loop and ok(v, k):
+            good[k] = v
+    f.__dict__['_c04_stable'] = good
+    return good
+
+
+def subst_locals(f: Func, e, depth=0):
+    """`e` with the stable once-bound locals it reads replaced by what they were bound to (a fresh expression)."""
+    import copy as _copy
+    sl = stable_locals(f)
+    if depth > 3 or not any(isinstance(x, ast.Name) and isinstance(x.ctx, ast.Load) and x.id in sl for x in ast.walk(e)):
+        return e
+
+    class Sub(ast.NodeTransformer):
+        def visit_Name(self, n):
+            if isinstance(n.ctx, ast.Load) and n.id in sl:
+                return ast.copy_location(subst_locals(f, _copy.deepcopy(sl[n.id]), depth + 1), n)
+            return n
+
+        def visit_Lambda(self, n):
+            return n
+
+    return ast.fix_missing_locations(Sub().visit(_copy.deepcopy(e)))
+
+
+def local_atom(f: Func, atom):
+    """An atom valuation that also reads a stable once-bound local as the test it was bound to
+    (`bodiless = status in CODES` ... `if head or bodiless:`)."""
+    sl = stable_locals(f)
+
+    def wrapped(e, depth=0):
+        v = atom(e)
+        if v is None and isinstance(e, ast.Name) and e.id in sl and depth < 4:
+            return eval3(sl[e.id], lambda x: wrapped(x, depth + 1))
+        return v
+    return wrapped
+
+
+class Deref:
+    """Reading ability 1, flow-sensitively: a local IS what it was bound to.  `norm(e, nid)` is the expression `e`
+    (evaluated at CFG node nid) with every local replaced by the expression of its single reaching plain binding, when that
+    expression can be re-read at nid with the same meaning: it is built from names, attribute chains, constants, displays,
+    `+`, len()/str() only, every name in it has the same reaching definitions at nid as at the binding (nothing was rebound
+    in between), and no attribute chain in it is assigned anywhere in the function.  `hdrs = resp._headers`,
+    `size = len(data)`, `payload = data`, `key = 'content-length'`, `normalise = code_to_http_status` are looked through;
+    the result of a call is not."""
+
+    def __init__(self, cfg, ix: Index):
+        self.cfg, self.ix = cfg, ix
+        self._attr_stores = {dotted(x) for x in walk_self(cfg.func.node)
+                             if isinstance(x, ast.Attribute) and isinstance(x.ctx, (ast.Store, ast.Del)) and dotted(x)}
+
+    def _pure(self, e) -> bool:
+        if isinstance(e, (ast.Constant, ast.Name)):
+            return True
+        if isinstance(e, ast.Attribute):
+            d = dotted(e)
+            return d is not None and d not in self._attr_stores and self._pure(e.value)
+        if isinstance(e, (ast.Tuple, ast.List)):
+            return all(self._pure(x) for x in e.elts)
+        if isinstance(e, ast.BinOp) and isinstance(e.op, ast.Add):
+            return self._pure(e.left) and self._pure(e.right)
+        if isinstance(e, ast.Call) and isinstance(e.func, ast.Name) and e.func.id in ('len', 'str') and len(e.args) == 1 and not e.keywords:
+            return self._pure(e.args[0])
+        return False
+
+    def value(self, nid: int, name: str) -> Optional[Tuple[ast.AST, int]]:
+        ds = self.ix.defs_reaching(nid, name)
+        if len(ds) != 1 or ds[0] == self.cfg.entry:
+            return None
+        dv = def_value(self.cfg, ds[0], name)
+        if dv[0] != 'expr' or dv[1] is None or not self._pure(dv[1]):
+            return None
+        if is_name(dv[1], name):
+            return None
+        for x in ast.walk(dv[1]):
+            if isinstance(x, ast.Name) and self.ix.defs_reaching(nid, x.id) != self.ix.defs_reaching(ds[0], x.id):
+                return None
+        return dv[1], ds[0]
+
+    def norm(self, e, nid: int, depth=0):
+        import copy as _copy
+        me = self
+
+        class Sub(ast.NodeTransformer):
+            def visit_Name(self, n):
+                if isinstance(n.ctx, ast.Load) and depth < 6:
+                    got = me.value(nid, n.id)
+                    if got is not None:
+                        return ast.copy_location(me.norm(got[0], got[1], depth + 1), n)
+                return n
+
+            def visit_Lambda(self, n):
+                return n
+
+        return ast.fix_missing_locations(Sub().visit(_copy.deepcopy(e)))
 
 
 def _str_tuple(v) -> Optional[List[str]]:
@@ -2079,13 +2471,18 @@ def _str_tuple(v) -> Optional[List[str]]:
     return None
 
 
-def _offer_parts(p, f: Func, e, depth=0) -> List[Tuple[str, ast.AST, Func, Optional[List[List[str]]]]]:
+def _offer_parts(p, f: Func, e, depth=0, env=None) -> List[Tuple[str, ast.AST, Func, Optional[List[List[str]]]]]:
     """The list handed to the negotiation, flattened into its concatenated parts, whatever builds it - `+`, starred
     displays, list()/tuple(), a local bound to any of these, a module-level / same-class helper that returns it, a
     module-level constant tuple: ('types', expr, function holding expr, alternatives: the constant lists of media
     types the part can be) | ('other', expr, function, None)."""
     if depth > 8:
         raise UnknownIdiom('%s: offered media types are built too deeply: %s' % (f.qual, short(e)))
+    # env: inside a helper that was looked through, parameter -> (argument expression, caller, caller's env)
+    if isinstance(e, ast.Name) and env and e.id in env and not any(
+            isinstance(x, ast.Name) and x.id == e.id and isinstance(x.ctx, (ast.Store, ast.Del)) for x in ast.walk(f.node)):
+        arg, caller, cenv = env[e.id]
+        return _offer_parts(p, caller, arg, depth + 1, cenv)
 
     def as_types(alts_of, expr):
         """several ways to the same part (conditional / several bindings / several returns): all constant lists"""
@@ -2094,23 +2491,23 @@ def _offer_parts(p, f: Func, e, depth=0) -> List[Tuple[str, ast.AST, Func, Optio
         return None
 
     if isinstance(e, ast.BinOp) and isinstance(e.op, ast.Add):
-        return _offer_parts(p, f, e.left, depth + 1) + _offer_parts(p, f, e.right, depth + 1)
+        return _offer_parts(p, f, e.left, depth + 1, env) + _offer_parts(p, f, e.right, depth + 1, env)
     if isinstance(e, ast.Call) and isinstance(e.func, ast.Name) and e.func.id in ('list', 'tuple') and len(e.args) == 1 and not e.keywords:
-        return _offer_parts(p, f, e.args[0], depth + 1)
+        return _offer_parts(p, f, e.args[0], depth + 1, env)
     if isinstance(e, (ast.List, ast.Tuple)) and any(isinstance(x, ast.Starred) for x in e.elts):
         out: List[Tuple[str, ast.AST, Func, Optional[List[List[str]]]]] = []
         for x in e.elts:
             if isinstance(x, ast.Starred):
-                out.extend(_offer_parts(p, f, x.value, depth + 1))
+                out.extend(_offer_parts(p, f, x.value, depth + 1, env))
             else:
-                out.extend(_offer_parts(p, f, ast.List(elts=[x], ctx=ast.Load()), depth + 1))
+                out.extend(_offer_parts(p, f, ast.List(elts=[x], ctx=ast.Load()), depth + 1, env))
         return out
     if isinstance(e, (ast.List, ast.Tuple)) and e.elts:
         vs = [fold_in(p, f, x) for x in e.elts]
         if all(isinstance(v, str) for v in vs):
             return [('types', e, f, [vs])]
     if isinstance(e, ast.IfExp):
-        got = as_types([_offer_parts(p, f, e.body, depth + 1), _offer_parts(p, f, e.orelse, depth + 1)], e)
+        got = as_types([_offer_parts(p, f, e.body, depth + 1, env), _offer_parts(p, f, e.orelse, depth + 1, env)], e)
         return got or [('other', e, f, None)]
     if isinstance(e, ast.Name) and e.id not in f.params():
         binds = []
@@ -2125,10 +2522,10 @@ def _offer_parts(p, f: Func, e, depth=0) -> List[Tuple[str, ast.AST, Func, Optio
                     and n.func.attr in ('insert', 'sort', 'reverse', 'pop', 'remove', 'clear', '__setitem__'):
                 raise UnknownIdiom('%s: offered media types %s are reordered in place by %s' % (f.qual, e.id, short(n)))
         if len(binds) == 1:
-            return _offer_parts(p, f, binds[0], depth + 1)
+            return _offer_parts(p, f, binds[0], depth + 1, env)
         if len(binds) > 1:
             # `if <option>: types = [...] / else: types = [...]`: a conditional list of types
-            got = as_types([_offer_parts(p, f, b, depth + 1) for b in binds], e)
+            got = as_types([_offer_parts(p, f, b, depth + 1, env) for b in binds], e)
             if got:
                 return got
             raise UnknownIdiom('%s: offered media types %s have %d bindings' % (f.qual, e.id, len(binds)))
@@ -2139,12 +2536,14 @@ def _offer_parts(p, f: Func, e, depth=0) -> List[Tuple[str, ast.AST, Func, Optio
             return [('types', e, f, [vs])]
     if isinstance(e, ast.Call):
         g = plain_helper(p, f, e)
-        if g is not None and not g.is_async:
+        bound = bind_args(g, e) if g is not None and not g.is_async else None
+        if bound is not None:
+            genv = {k: (v, f, env) for k, v in bound.items()}
             rets = [r for r in walk_self(g.node) if isinstance(r, ast.Return) and r.value is not None]
             if len(rets) == 1:
-                return _offer_parts(p, g, rets[0].value, depth + 1)
+                return _offer_parts(p, g, rets[0].value, depth + 1, genv)
             if rets:
-                got = as_types([_offer_parts(p, g, r.value, depth + 1) for r in rets], e)
+                got = as_types([_offer_parts(p, g, r.value, depth + 1, genv) for r in rets], e)
                 if got:
                     return got
                 raise UnknownIdiom('%s: offered media types are built by %s, which has %d returns' % (f.qual, g.qual, len(rets)))
@@ -2168,19 +2567,47 @@ def _negotiation_rule(run, ser: Func):
         raise UnknownIdiom('falcon.constants.MEDIA_JSON is not a constant string')
     negs = [c for c in walk_self(ser.node) if isinstance(c, ast.Call) and isinstance(c.func, ast.Attribute)
             and c.func.attr == 'client_prefers' and is_name(c.func.value, reqn)]
+    offer_of: Dict[int, Tuple[Func, ast.AST, Optional[dict]]] = {}
+    for c in negs:
+        if len(c.args) != 1 or c.keywords:
+            raise UnknownIdiom('%s: negotiation call %s' % (ser.qual, short(c)))
+        offer_of[id(c)] = (ser, c.args[0], None)
+    # the negotiation call moved into a module-level helper that is handed the request: the helper call is the negotiation
+    for c in walk_self(ser.node):
+        if not (isinstance(c, ast.Call) and (any(is_name(a, reqn) for a in c.args) or any(is_name(k.value, reqn) for k in c.keywords))):
+            continue
+        g = plain_helper(p, ser, c)
+        bound = bind_args(g, c) if g is not None and not g.is_async else None
+        if bound is None:
+            continue
+        prm = [k for k, v in bound.items() if is_name(v, reqn)]
+        inner = [x for x in walk_self(g.node) if isinstance(x, ast.Call) and isinstance(x.func, ast.Attribute) and x.func.attr == 'client_prefers'
+                 and isinstance(x.func.value, ast.Name) and x.func.value.id in prm]
+        if not inner:
+            continue
+        gcfg = cfg_of(g, p)
+        run.use_cfg(gcfg)
+        gix = Index(gcfg)
+        if len(inner) != 1 or len(inner[0].args) != 1 or inner[0].keywords or _all_paths_through(gcfg, _call_nodes(gix, inner)) is not None:
+            raise UnknownIdiom('%s: %s negotiates on some paths only / more than once' % (ser.qual, g.qual))
+        neg_al = _aliases(g, lambda e, inner=inner: e is inner[0])
+        for r in walk_self(g.node):
+            if isinstance(r, ast.Return) and not (r.value is inner[0] or (isinstance(r.value, ast.Name) and r.value.id in neg_al)):
+                raise UnknownIdiom('%s: %s returns %s, not the answer of the negotiation' % (ser.qual, g.qual, short(r)))
+        negs.append(c)
+        offer_of[id(c)] = (g, inner[0].args[0], {k: (v, ser, None) for k, v in bound.items()})
     if not negs:
         raise AnchorError('%s: no %s.client_prefers(...) negotiation call' % (ser.qual, reqn))
     neg_nodes = _call_nodes(ix, negs)
     # (1) what is offered, in which order
     for c in negs:
-        if len(c.args) != 1 or c.keywords:
-            raise UnknownIdiom('%s: negotiation call %s' % (ser.qual, short(c)))
-        parts = _offer_parts(p, ser, c.args[0])
+        ofn, oexpr, oenv = offer_of[id(c)]
+        parts = _offer_parts(p, ofn, oexpr, 0, oenv)
         typed = [i for i, part in enumerate(parts) if part[0] == 'types']
         if not typed:
-            raise UnknownIdiom('%s: no literal list of predefined media types in %s' % (ser.qual, short(c.args[0])))
+            raise UnknownIdiom('%s: no literal list of predefined media types in %s' % (ser.qual, short(oexpr)))
         run.check(typed[0] == 0, 'the default error serializer offers the predefined media types before the registered handlers '
-                                 '(an equal match goes to the first one offered)', ser, 'offered: ' + short(c.args[0]), where=ser.loc(c),
+                                 '(an equal match goes to the first one offered)', ser, 'offered: ' + short(oexpr), where=ser.loc(c),
                   runtime_witness='Accept: */* (or no Accept header) with a registered handler listed first: the error is no longer JSON')
         alts = [a for i in typed[:1] for a in parts[i][3]]
         bad = [a for a in alts if a[0] != json_type]
@@ -2954,8 +3381,10 @@ def _whole_document_rule(run, members: Dict[str, bool]):
     doc = _Rendered(p, f, _root_call(p, f, HTTP_ERROR + '.to_dict'), 'JSON', dict, members)
     what_h = 'HTTPError.to_json serialises the mapping to_dict() returned whole (no member selected away, renamed or re-valued)'
     sers = []
+    ser_al = _aliases(f, lambda e: isinstance(e, ast.Attribute) and e.attr == 'serialize')       # serialize = handler.serialize
     for c in walk_self(f.node):
-        if isinstance(c, ast.Call) and isinstance(c.func, ast.Attribute) and c.func.attr == 'serialize' and c.args \
+        if isinstance(c, ast.Call) and ((isinstance(c.func, ast.Attribute) and c.func.attr == 'serialize')
+                                        or (isinstance(c.func, ast.Name) and c.func.id in ser_al)) and c.args \
                 and not isinstance(c.args[0], ast.Starred):
             nid = doc.rd.cfg_node(c)
             if nid is None:
@@ -3008,6 +3437,17 @@ def _members(text: str) -> List[str]:
     return [m.strip().lower() for m in text.split(',') if m.strip()]
 
 
+def _arg_value(p, f: Func, e):
+    """constant value of an argument expression of f: constants, once-bound locals, module constants, and a parameter of f
+    that is an inert additive extension (nobody passes it) read as its default"""
+    v = fold_in(p, f, e)
+    if v is UNKNOWN and isinstance(e, ast.Name) and e.id in f.params():
+        d = inert_default(p, f, e.id)
+        if d is not None:
+            return p.fold(f.module, d, f.cls, None)
+    return v
+
+
 def _vary_through_append(run, ser: Func, call: ast.Call, respn: str):
     """The serializer's `resp.append_header('Vary', 'Accept')` promises the MEMBER Accept in the Vary header whatever the
     header held before.  Decided by evaluating the body of the response classes' append_header (nothing is imported or
@@ -3017,8 +3457,8 @@ def _vary_through_append(run, ser: Func, call: ast.Call, respn: str):
     W: a middleware set Vary: Accept-Encoding; append_header skips the append because 'Accept' in 'Accept-Encoding' ->
     the negotiated (JSON vs XML) error body goes out without Vary: Accept."""
     p = run.project
-    name, value = (fold_in(p, ser, x) for x in call.args)
-    kwargs = {k.arg: fold_in(p, ser, k.value) for k in call.keywords}
+    name, value = (_arg_value(p, ser, x) for x in call.args)
+    kwargs = {k.arg: _arg_value(p, ser, k.value) for k in call.keywords}
     if any(k is None or v is UNKNOWN for k, v in kwargs.items()):
         raise UnknownIdiom('%s: keyword arguments of %s' % (ser.qual, short(call)))
     seen: Dict[str, Tuple[Func, str, List[str]]] = {}
@@ -3099,9 +3539,11 @@ def r4_rendering(run):
     for c in walk_self(ser.node):
         if isinstance(c, ast.Call) and isinstance(c.func, ast.Attribute) and c.func.attr == 'append_header' and is_name(c.func.value, respn) \
                 and len(c.args) == 2:
-            a, b = (fold_in(p, ser, x) for x in c.args)
+            a, b = (_arg_value(p, ser, x) for x in c.args)
             if isinstance(a, str) and isinstance(b, str) and a.lower() == 'vary' and b.lower() == 'accept':
                 vary.append(c)
+            elif (isinstance(a, str) and a.lower() == 'vary' and b is UNKNOWN) or (a is UNKNOWN and isinstance(b, str) and b.lower() == 'accept'):
+                raise UnknownIdiom('%s: cannot read the arguments of %s' % (ser.qual, short(c)))
     path = _all_paths_through(cfg, _call_nodes(ix, vary))
     run.check(bool(vary) and path is None, 'the default error serializer appends Vary: Accept on every path', ser,
               "%s.append_header('Vary', 'Accept')" % respn, where=ser.loc(), witness=flow.describe_path(cfg, path) if path else None,
@@ -3144,9 +3586,10 @@ def r4_rendering(run):
 # ---------------------------------------------------------------------------
 
 def _python_handler_name(p) -> str:
-    init = p.func(WSGI_APP + '.__init__')
+    init = inline_view(p, p.func(WSGI_APP + '.__init__'), _INIT_KEEP)
+    is_add = method_of(init, {'self'}, 'add_error_handler')
     for c in walk_self(init.node):
-        if isinstance(c, ast.Call) and dotted(c.func) == 'self.add_error_handler' and len(c.args) >= 2:
+        if isinstance(c, ast.Call) and is_add(c.func) and len(c.args) >= 2:
             if p.resolve_expr(init.module, c.args[0], init) == 'builtins.Exception':
                 hm = c.args[1]
                 if isinstance(hm, ast.Attribute) and is_name(hm.value, 'self'):
@@ -3303,9 +3746,14 @@ def _r5(run, compose: bool, escape: bool):
         http = pruned(cfg, _truthy(respn), flow.no_exc)
         good, bad = [], []
         construction: Set[int] = set()
+        is_compose = method_of(f, {'self'}, '_compose_error_response')      # compose = self._compose_error_response: the method
+        REQ, RESP = same_names(f, reqn), same_names(f, respn)
+        for x in walk_self(f.node):
+            if isinstance(x, ast.Assign) and is_compose(x.value) and not isinstance(x.value, ast.Name):
+                construction.add(id(x))         # the binding of the bound method: looks the attribute up, calls nothing
         for c in walk_self(f.node):
-            if isinstance(c, ast.Call) and dotted(c.func) == 'self._compose_error_response' and len(c.args) >= 3 \
-                    and is_name(c.args[0], reqn) and is_name(c.args[1], respn):
+            if isinstance(c, ast.Call) and is_compose(c.func) and len(c.args) >= 3 \
+                    and isinstance(c.args[0], ast.Name) and c.args[0].id in REQ and isinstance(c.args[1], ast.Name) and c.args[1].id in RESP:
                 e = c.args[2]
                 if isinstance(e, ast.Name):
                     binds = [n for n in walk_self(f.node) if isinstance(n, ast.Assign) and any(is_name(t, e.id) for t in n.targets)]
@@ -3823,6 +4271,11 @@ class _AcceptGetterEval(_c9._GetterEval):
     def ev(self, e, loc):
         if isinstance(e, ast.Name) and e.id in loc and loc[e.id] is self.POISON:
             self.bad('local bound by a statement that was not read', e)
+        if isinstance(e, (ast.Name, ast.Attribute)) and self.p is not None and not (isinstance(e, ast.Name) and (e.id in loc or self.env.get(e.id) is not None)):
+            # a module-level / class-level constant is its value (`_ANY = '*/*'`)
+            cv = self.p.fold(self.f.module, e, self.f.cls, self.f)
+            if isinstance(cv, (str, bytes)):
+                return ('const', cv)
         if isinstance(e, ast.Call) and isinstance(e.func, ast.Attribute) and e.func.attr in self.TEXT_METHODS and not e.keywords \
                 and not self.is_table(e.func.value):
             try:
